@@ -223,4 +223,31 @@ theorem abs_cache_le (cap : Nat) (ops : List Op) : ∀ (a : Abs), a.cache.length
             · rename_i hlt; simpa using Nat.le_of_not_lt hlt
           · exact h
 
+/-! ### operations that cannot disturb the answer to a request -/
+
+/-- `op` cannot change what the request `(cn, sans)` is answered with by way of a registration: it is a `get_cert`, or an
+    `add_cert` none of whose registered names is a potential key of the request -/
+def Op.undisturbing (cn : Option Bytes) (sans : List San) : Op → Prop
+  | .get _ _ _ _ _ => True
+  | .add _ cn' sans' names => ∀ n ∈ addKeys cn' sans' names, n ∉ potentialNames cn sans
+
+theorem lookup_potential_run {cap : Nat} {cn : Option Bytes} {sans : List San} (mid : List Op)
+    (hmid : ∀ op ∈ mid, Op.undisturbing cn sans op) :
+    ∀ {s : Store}, Inv cap s → ∀ n ∈ potentialNames cn sans,
+      lookup (.name n) (run cap s mid).certs = lookup (.name n) s.certs := by
+  induction mid with
+  | nil => intro s _ n _; rfl
+  | cons op ops ih =>
+    intro s h n hn
+    simp only [run]
+    rw [ih (fun o ho => hmid o (List.mem_cons_of_mem _ ho)) (inv_step h op) n hn]
+    cases op with
+    | get ok c ss o cr => exact lookup_name_getCert h ok c ss n
+    | add id c ss names =>
+      have hu := hmid _ (List.mem_cons_self ..)
+      simp only [Op.undisturbing] at hu
+      simp only [step, addCert, lookup_setAll]
+      have : ¬ n ∈ addKeys c ss names := fun hm => hu n hm hn
+      simp [this]
+
 end MitmVerif.C17
